@@ -274,7 +274,7 @@ func c12Scenario(kind string, populated bool, progs [][]int, ops []c12op, bound 
 				if ids := c12MemStoreDiff(final); len(ids) > 0 {
 					// narrow classifier: memory and storage disagree with EACH OTHER about an id that
 					// both clients wrote (the two are updated in different critical sections)
-					return []*lib.Violation{{Signature: "C12/" + kind + "/memory-and-storage-disagree-after-concurrent-writes:" + c12OpKinds(progs, ops), Summary: fmt.Sprintf("%s: after the concurrent writes memory and storage disagree about %v: %s", cfg, ids, final), Observed: final}}
+					return []*lib.Violation{{Signature: "C12/" + kind + "/memory-and-storage-disagree-after-concurrent-writes:" + c12OpKinds(progs, ops, ids), Summary: fmt.Sprintf("%s: after the concurrent writes memory and storage disagree about %v: %s", cfg, ids, final), Observed: final}}
 				}
 				return []*lib.Violation{{Signature: "C12/" + kind + "/final-state-matches-no-linearization", Summary: fmt.Sprintf("%s: results %v are linearizable but the final memory/storage state %s equals that of no such order", cfg, r.Obs(), final), Observed: final}}
 			}
@@ -326,15 +326,43 @@ func c12MemStoreDiff(final string) []string {
 	return lib.Dedup(ids)
 }
 
-// c12OpKinds: the sorted operation kinds of the scenario ("AddFact~RemFact").
-func c12OpKinds(progs [][]int, ops []c12op) string {
-	var ks []string
-	for _, p := range progs {
-		for _, o := range p {
-			ks = append(ks, strings.SplitN(ops[o].Name, "(", 2)[0])
+// c12OpKinds names the kinds of the WRITERS of the ids that memory and storage
+// disagree about (readers and writers of other ids are not part of the defect):
+// "AddFact~AddFact", "AddFact~RemFact", ... - one kind is doubled, three or more
+// distinct kinds are all listed.
+func c12OpKinds(progs [][]int, ops []c12op, ids []string) string {
+	wantFacts, wantRules := false, false
+	for _, id := range ids {
+		if id == "f1" {
+			wantFacts = true
+		} else {
+			wantRules = true
 		}
 	}
+	set := map[string]int{}
+	for _, p := range progs {
+		for _, o := range p {
+			k := strings.SplitN(ops[o].Name, "(", 2)[0]
+			switch k {
+			case "AddFact", "RemFact":
+				if wantFacts {
+					set[k]++
+				}
+			case "AddRule", "RemRule", "EnableRule":
+				if wantRules {
+					set[k]++
+				}
+			}
+		}
+	}
+	var ks []string
+	for k := range set {
+		ks = append(ks, k)
+	}
 	sort.Strings(ks)
+	if len(ks) == 1 {
+		ks = append(ks, ks[0])
+	}
 	return strings.Join(ks, "~")
 }
 
